@@ -473,3 +473,59 @@ def jsonable(h: dict) -> dict:
     for o in h["ops"]:
         ops.append({k: v for k, v in o.items() if not callable(v)})
     return {"ops": ops, "consumers": {str(k): v for k, v in h.get("consumers", {}).items()}}
+
+
+def consume_cuts(ctx, res) -> None:
+    """RabbitMQ twin of _redis.consume_cuts: consume() cancelled while it nacks a message that expired in the local buffer must
+    not leave it unacknowledged with its delivery tag forgotten."""
+    import asyncio
+    from ..clock import CLOCK
+    from ..fakeamqp import ISSUER
+    from ..pyparams import mk_params
+    from ..world import key
+    problems = []
+
+    async def main(loop):
+        loop.set_exception_handler(lambda l, c: None)
+        for k in range(0, ctx.scale(20, 40)):
+            w = rabbitrun.RabbitWorld()
+            tok = ISSUER.set(("api",))
+            try:
+                await w.mb.queue_declare("q1")
+                cons = w.mb.get_consumer("q1", None, None)
+                now = CLOCK.now_us()
+                await w.mb.enqueue(key("m1", "t1", "q1", 5), "p1", mk_params(ts=now, ttl=200_000))
+                await w.mb.enqueue(key("m2", "t1", "q1", 5), "p2", mk_params(ts=now))
+                await cons.start()
+                await w.settle()
+                await asyncio.sleep(0.5)
+                t = asyncio.ensure_future(cons.consume())
+                for _ in range(k):
+                    await asyncio.sleep(0)
+                got = None
+                if t.done():
+                    got = t.result()
+                else:
+                    t.cancel()
+                    try:
+                        await t
+                    except asyncio.CancelledError:
+                        pass
+                await w.settle()
+            finally:
+                ISSUER.reset(tok)
+            st = rabbitrun.w_state(w)
+            buf = [rabbitrun.num(k_.id_) for (k_, _, _) in list(cons.queue._queue)]
+            held = [rabbitrun.num(got[0].id_)] if got else []
+            res.count("rabbit_consume_cut_runs")
+            res.add_case(f"rabbit_consume_cut:{k}:{held}:{buf}", True)
+            stuck = [i for i, p in st["places"].items() if p[0][0] == "unacked" and i not in buf and i not in held]
+            lost = [i for i in (1, 2) if len(st["places"].get(i, [])) != 1]
+            if stuck or lost:
+                problems.append((k, stuck, lost, {i: [x[0] for x in p] for i, p in st["places"].items()}))
+    run_virtual(main)
+    if problems:
+        k, stuck, lost, pl = problems[0]
+        res.failures.append(Failure("rabbit_consume_cut_leaves_message_in_flight", f"consume() cancelled after {k} loop iterations while it was "
+                                    f"dead-lettering a message that expired in the buffer: places {pl}, unacknowledged and held by nobody: {stuck}, "
+                                    f"not in exactly one place: {lost}", {"rabbit_consume_cut": {"k": k}}, None))
